@@ -1,8 +1,8 @@
 (* C09 - the dtype of the index array given to VolumeToVolumeTransformer.__call__:
    the rounded mapping is independent of the input dtype exactly when the rounded indices fit the output
    integer type (the signed input type, int64 for unsigned and floating inputs), hence agrees with the
-   route through physical space for every such dtype; unrounded mapping is dtype independent for signed and
-   floating inputs; for UNSIGNED inputs the unrounded mapping is refuted (the code casts to the unsigned type) *)
+   route through physical space for every such dtype; the unrounded mapping is dtype independent (signed,
+   unsigned - fix D112 - and floating inputs; rounding to float32 is an oracle premise) *)
 From Coq Require Import String ZArith List Bool Lia ZifyBool QArith Qround Qfield Lqa.
 From HD Require Import Base.Val Base.PySlice C09_Model C09_Proofs C09_Proofs_Index.
 Import ListNotations.
@@ -74,14 +74,16 @@ Proof.
   destruct dt; [discriminate Hi|exact H|exact H].
 Qed.
 
-(* unrounded mapping: independent of the dtype for signed integer and floating inputs *)
-Theorem v2v_dt_unrounded_exact : forall dt A B shape check pts, (forall w, dt <> DUInt w) ->
+(* unrounded mapping: independent of the dtype of the index array - signed, UNSIGNED (fix D112) and floating *)
+Lemma cast_unrounded_id : forall dt v, cast_out dt false v = v.
+Proof. intros dt v. unfold cast_out, to_float. destruct dt; reflexivity. Qed.
+
+Theorem v2v_dt_unrounded_exact : forall dt A B shape check pts,
   v2v_dt dt A B shape false check pts = v2v A B shape false check pts.
 Proof.
-  intros dt A B shape check pts Hn. unfold v2v_dt, v2v.
+  intros dt A B shape check pts. unfold v2v_dt, v2v.
   assert (E : map (cast_out dt false) (map (phys (v2v_aff A B)) pts) = map (phys (v2v_aff A B)) pts).
-  { destruct dt as [w|w|w]; [| exfalso; now apply (Hn w) |];
-    unfold cast_out; now rewrite map_id. }
+  { rewrite (map_ext _ (fun v => v) (cast_unrounded_id dt)). apply map_id. }
   now rewrite E.
 Qed.
 
@@ -97,23 +99,25 @@ Proof.
 Qed.
 
 Theorem v2v_dt_unrounded_agrees_with_physical_route : forall dt A B shape check pts, ~ (det B == 0)%Q ->
-  (forall w, dt <> DUInt w) ->
-  agree (v2v_dt dt A B shape false check pts) (ref2idx B shape false check (idx2ref A pts)).
+  agree (v2v_dt dt A B shape false check pts) (ref2idx B shape false check (idx2ref A pts)) /\
+  (forall e, v2v_dt dt A B shape false check pts = Err e -> e = VE /\ check = true) /\
+  (forall e, ref2idx B shape false check (idx2ref A pts) = Err e ->
+             check = true /\ (e = RT \/ pts = [] /\ e = VE)).
 Proof.
-  intros dt A B shape check pts Hd Hn. rewrite (v2v_dt_unrounded_exact dt A B shape check pts Hn).
+  intros dt A B shape check pts Hd. rewrite (v2v_dt_unrounded_exact dt A B shape check pts).
   now apply v2v_agrees_with_physical_route.
 Qed.
 
-(* REFUTED for unsigned inputs without rounding (defect of the code, reported): identity geometries, the target
-   shifted by 5/2 voxels and 300 voxels long; the uint8 point (1,2,3) maps to (-3/2,2,3), the code returns
-   (255,2,3) and its bounds check ACCEPTS the point although it lies outside the target *)
+(* the witness of fixed defect D112 (identity geometries, the target shifted by 5/2 voxels and 300 voxels long, the
+   uint8 point (1,2,3) maps to (-3/2,2,3); the code used to return (255,2,3) and to ACCEPT it): now refused by the
+   bounds check, and returned as it is without the check *)
 Definition rf_A : aff := Aff (V3 1 0 0) (V3 0 1 0) (V3 0 0 1) (V3 0 0 0).
 Definition rf_B : aff := Aff (V3 1 0 0) (V3 0 1 0) (V3 0 0 1) (V3 (5 # 2) 0 0).
-Theorem v2v_dt_unsigned_unrounded_refuted :
+Lemma d112_unsigned_unrounded_now_exact :
   ~ (det rf_B == 0)%Q /\
-  v2v_dt (DUInt W8) rf_A rf_B (T3 300 10 10) false true [V3 1 2 3] = Ok [V3 255 2 3] /\
+  v2v_dt (DUInt W8) rf_A rf_B (T3 300 10 10) false true [V3 1 2 3] = Err VE /\
   ref2idx rf_B (T3 300 10 10) false true (idx2ref rf_A [V3 1 2 3]) = Err RT /\
-  exists l, ref2idx rf_B (T3 300 10 10) false false (idx2ref rf_A [V3 1 2 3]) = Ok l /\
+  exists l, v2v_dt (DUInt W8) rf_A rf_B (T3 300 10 10) false false [V3 1 2 3] = Ok l /\
             Forall2 veq l [V3 (- (3 # 2)) 2 3].
 Proof.
   split; [vm_compute; discriminate|]. split; [vm_compute; reflexivity|]. split; [vm_compute; reflexivity|].
